@@ -19,6 +19,7 @@ let show_fi (f : finfo) =
   Printf.sprintf "bsid=%s bmode=%s cc=%s ftype=%s csize=%s dictid=%s bc=%s"
     (zstr f.fi_blockSizeID) (zstr f.fi_blockMode) (zstr f.fi_ccFlag) (zstr f.fi_frameType)
     (zstr f.fi_contentSize) (zstr f.fi_dictID) (zstr f.fi_bcFlag)
+let cur_dict : Big_int_Z.big_int list ref = ref []
 let get id = Hashtbl.find ctxs (int_of_string id)
 let put id s = Hashtbl.replace ctxs (int_of_string id) s
 let b s = (s = "1")
@@ -28,13 +29,14 @@ let () =
   reg "free" (function [id] -> Hashtbl.remove ctxs (int_of_string id); "ok" | _ -> "badargs");
   reg "copy" (function [id] -> incr next; Hashtbl.replace ctxs !next (get id); string_of_int !next | _ -> "badargs");
   reg "reset" (function [id] -> put id (reset (get id)); "ok" | _ -> "badargs");
-  (* dec <id> <src> <cap> <dstnull> <skip> <usedict> <dict>  ->  consumed produced ret fuel oob stage outlen outmd5 [outhex] *)
-  reg "dec" (function [id; src; cap; dstnull; skip; usedict; dict] ->
+  reg "setdict" (function [d] -> cur_dict := bytes_of_hex d; "ok" | _ -> "badargs");
+  (* dec <id> <src> <cap> <dstnull> <skip> <usedict>   (dictionary = the one given by setdict)  ->  consumed produced ret fuel oob stage outlen outmd5 [outhex] *)
+  reg "dec" (function [id; src; cap; dstnull; skip; usedict] ->
       let s = get id in
       bdlog := [];
       let o = { o_stableDst = false; o_skip = b skip; o_dstnull = b dstnull } in
       let (s', r) =
-        if b usedict then decompress_usingDict bdec s (bytes_of_hex src) (zs cap) (bytes_of_hex dict) o
+        if b usedict then decompress_usingDict bdec s (bytes_of_hex src) (zs cap) !cur_dict o
         else decompress bdec s (bytes_of_hex src) (zs cap) o in
       put id s';
       Printf.sprintf "%s %s %s %s %s %s %s" (zstr r.r_consumed) (zstr r.r_produced) (zstr r.r_ret)
